@@ -106,7 +106,7 @@ class PaneBase:
         params = tuple(type(None) if p is None else p for p in params)
         # `==` alone is too coarse a cache key (`Union[int, float] == Union[float, int]`,
         # `Literal[0, False] == Literal[False, 0]`): also key on the parameters as written
-        return _make_subclass(cls, params, repr(params))
+        return _make_subclass(cls, params, _as_written(params))
 
     def __repr__(self) -> str:
         inside = ", ".join(
@@ -420,8 +420,19 @@ class PaneOptions:
         return dataclasses.replace(self, **{k: v for (k, v) in changes.items() if v is not None})
 
 
+def _as_written(ty: t.Any) -> t.Any:
+    """
+    Hashable description of a type annotation which keeps the order of its arguments
+    (`repr` alone prints `Union[None, X]` and `Union[X, None]` alike, as `Optional[X]`)
+    """
+    args = ty if isinstance(ty, tuple) else t.get_args(ty)
+    if not len(args):
+        return repr(ty)
+    return (repr(t.get_origin(ty)), tuple(_as_written(arg) for arg in args))
+
+
 @functools.lru_cache(maxsize=256)
-def _make_subclass(cls: t.Any, params: t.Tuple[t.Any, ...], _written: str = '') -> type:
+def _make_subclass(cls: t.Any, params: t.Tuple[t.Any, ...], _written: t.Any = '') -> type:
     sup: t.Any = super(PaneBase, cls)
     if not hasattr(sup, '__class_getitem__'):
         raise TypeError(f"type '{cls}' is not subscriptable")
